@@ -190,13 +190,58 @@ func evalC20AfterUse(w *fw.W, _, _ string) {
 	use = append(use, c05XSS...)
 	use = append(use, c03Strings(true)...)
 	use = append(use, c04Vectors(false)...)
+	use = append(use, attrFormsHTML()...) // attribute pairs: what one attribute does to the judgement (and the table entry) of the next
+	use = append(use, keywordSweep()...)
 	use = append(use, "<set attributeName=\"&#111;nclick\">", "<a attributename=&#x6f;nload>", "<svg xmlns:xl=x><a xl:href=javascript:x>", "1 union all select 1 from dual", "a natural full outer join b")
-	for _, s := range use {
+	// the XSS tables are small: they are re-read after EVERY call (a later input may put a changed entry back);
+	// the keyword table is re-read every 512 calls and at the end
+	xssSig := func() uint64 {
+		tags, attrs, events, hex := lib.VerifXSSTables()
+		h := uint64(14695981039346656037)
+		mix := func(s string, t int) {
+			for i := 0; i < len(s); i++ {
+				h = (h ^ uint64(s[i])) * 1099511628211
+			}
+			h = (h ^ uint64(t+1)) * 1099511628211
+		}
+		for _, t := range tags {
+			mix(t, 0)
+		}
+		for _, a := range attrs {
+			mix(a.Name, a.Type)
+		}
+		for _, e := range events {
+			mix(e.Name, e.Type)
+		}
+		for _, v := range hex {
+			h = (h ^ uint64(v+1)) * 1099511628211
+		}
+		return h
+	}
+	sig0 := xssSig()
+	for i, s := range use {
 		func() {
 			defer func() { recover() }()
 			lib.IsSQLi(s)
 			lib.IsXSS(s)
 		}()
+		if xssSig() != sig0 {
+			w.Fail("table-changed-at-run-time", fmt.Sprintf("the XSS tables (tags, attributes, events, hex map) differ from their start-up contents after call %d of the detectors, input %q", i+1, s))
+			return
+		}
+		if i%512 == 511 {
+			cur := lib.VerifSQLKeywords()
+			if len(cur) != len(before.SQL) {
+				w.Fail("table-changed-at-run-time", fmt.Sprintf("the keyword table has %d entries after call %d (input %q), %d at start-up", len(cur), i+1, s, len(before.SQL)))
+				return
+			}
+			for k, v := range cur {
+				if before.SQL[k] != string([]byte{v}) {
+					w.Fail("table-changed-at-run-time", fmt.Sprintf("keyword entry %q is %q after call %d (input %q), %q at start-up", k, v, i+1, s, before.SQL[k]))
+					return
+				}
+			}
+		}
 	}
 	after := currentTables()
 	w.Traces(len(use))
@@ -299,7 +344,7 @@ func init() {
 			{Name: "tables", Space: "all entries of the current tables + all entries of the pinned baseline", Share: 1,
 				Run:  func(w *fw.W) { w.Each(len(items), func(i int) { w.Item(items[i].key, items[i].kind) }) },
 				Eval: evalC20},
-			{Name: "tables-after-use", Space: "the five tables re-read after ~50 000 calls of both detectors over the fixtures, the C05 operations and the C03 / C04 grammars: every start-up entry must be unchanged (baseline entries are never lost at run time either)", Share: 1, Serial: true,
+			{Name: "tables-after-use", Space: "the five tables re-read after ~140 000 calls of both detectors over the fixtures, the C05 operations, the C03 / C04 grammars, every attribute pair of the attribute-forms family and the keyword sweep: every start-up entry must be unchanged (baseline entries are never lost at run time either)", Share: 1, Serial: true,
 				Run:  func(w *fw.W) { w.Item("", "after-use"); w.Finish() },
 				Eval: evalC20AfterUse},
 		},
